@@ -47,6 +47,31 @@ theorem filter_label_le (f : Frame) (hs : f.Sorted) (p : Nat) (hp : p < f.nrows)
         subst this; omega
   simp [this]
 
+theorem map_getD_range' {α} (c : List α) (d : α) : (List.range c.length).map (fun i => c.getD i d) = c := by
+  apply List.ext_getElem
+  · simp
+  · intro j h1 h2
+    have hj : j < c.length := by simpa using h1
+    simp [List.getD_eq_getElem?_getD, hj]
+
+/-- the values of the first `q` rows: every column cut at position `q` -/
+theorem vals_gather_take (f : Frame) (hr : f.Rect) (q : Nat) :
+    (f.gather ((List.range f.nrows).take q)).vals = f.vals.map fun c => c.take q := by
+  rw [vals_gather]
+  apply List.map_congr_left
+  intro c hc
+  have hl : c.length = f.nrows := rect_vals hr hc
+  rw [← hl, List.map_take, map_getD_range']
+
+/-- the values of the rows from position `q` on -/
+theorem vals_gather_drop (f : Frame) (hr : f.Rect) (q : Nat) :
+    (f.gather ((List.range f.nrows).drop q)).vals = f.vals.map fun c => c.drop q := by
+  rw [vals_gather]
+  apply List.map_congr_left
+  intro c hc
+  have hl : c.length = f.nrows := rect_vals hr hc
+  rw [← hl, List.map_drop, map_getD_range']
+
 /-- the last position of a filtered range: it passes the test, nothing after it does -/
 theorem getLast_filter_range (n : Nat) (p : Nat → Bool) (h : (List.range n).filter p ≠ []) :
     let q := ((List.range n).filter p).getLast h
